@@ -465,25 +465,35 @@ Proof. intros H. unfold is_dir. now rewrite (real_dir_lookup f p H). Qed.
 Lemma real_dir_app f a b : real_dir f (a ++ b) <-> real_dir f a /\ dirs_from f a b.
 Proof. unfold real_dir. rewrite dirs_from_app. reflexivity. Qed.
 
-Lemma walk_dirs f cur rest : dirs_from f cur rest -> walk f cur rest = WDone (cur ++ rest).
+Lemma down_app a b : down (a ++ b) = down a ++ down b.
+Proof. apply map_app. Qed.
+
+Lemma walk_dirs f cur rest : dirs_from f cur rest -> walk f cur (down rest) = WDone (cur ++ rest).
 Proof.
-  revert cur; induction rest as [|c r IH]; intros cur Hd; cbn [dirs_from walk] in *.
+  revert cur; induction rest as [|c r IH]; intros cur Hd; cbn [dirs_from walk down map] in *.
   - now rewrite app_nil_r.
-  - destruct Hd as [Hl Hd]. rewrite Hl. rewrite IH by exact Hd. now rewrite <- app_assoc.
+  - destruct Hd as [Hl Hd]. rewrite Hl. fold (down r). rewrite IH by exact Hd.
+    now rewrite <- app_assoc.
+Qed.
+
+(* b : any steps, ".." included *)
+Lemma walk_app_dirs_gen f cur a b :
+  dirs_from f cur a -> walk f cur (down a ++ b) = walk f (cur ++ a) b.
+Proof.
+  revert cur; induction a as [|x a IH]; intros cur Hd; cbn [app dirs_from walk down map] in *.
+  - now rewrite app_nil_r.
+  - destruct Hd as [Hl Hd]. rewrite Hl. fold (down a). rewrite IH by exact Hd.
+    now rewrite <- app_assoc.
 Qed.
 
 Lemma walk_app_dirs f cur a b :
-  dirs_from f cur a -> walk f cur (a ++ b) = walk f (cur ++ a) b.
-Proof.
-  revert cur; induction a as [|x a IH]; intros cur Hd; cbn [app dirs_from walk] in *.
-  - now rewrite app_nil_r.
-  - destruct Hd as [Hl Hd]. rewrite Hl. rewrite IH by exact Hd. now rewrite <- app_assoc.
-Qed.
+  dirs_from f cur a -> walk f cur (down (a ++ b)) = walk f (cur ++ a) (down b).
+Proof. intros Hd. rewrite down_app. now apply walk_app_dirs_gen. Qed.
 
-Lemma resolve_done k f p q : walk f [] p = WDone q -> resolve k f p = Some q.
+Lemma resolve_done k f cur p q : walk f cur p = WDone q -> resolve k f cur p = Some q.
 Proof. intros H. destruct k; cbn [resolve]; now rewrite H. Qed.
 
-Lemma resolve_fail k f p : walk f [] p = WFail -> resolve k f p = None.
+Lemma resolve_fail k f cur p : walk f cur p = WFail -> resolve k f cur p = None.
 Proof. intros H. destruct k; cbn [resolve]; now rewrite H. Qed.
 
 Lemma canonicalize_real f p : real_dir f p -> canonicalize f p = Some p.
@@ -491,11 +501,12 @@ Proof. intros H. apply resolve_done. now apply walk_dirs in H. Qed.
 
 (* a successful walk that meets no regular file went through directories only *)
 Lemma walk_done_dirs f cur rest x :
-  walk f cur rest = WDone x ->
+  walk f cur (down rest) = WDone x ->
   (forall r d, r <> [] -> prefix r rest -> lookup f (cur ++ r) <> Some (File d)) ->
   dirs_from f cur rest /\ x = cur ++ rest.
 Proof.
-  revert cur; induction rest as [|c r IH]; intros cur Hw Hnf; cbn [walk dirs_from] in *.
+  revert cur; induction rest as [|c r IH]; intros cur Hw Hnf; cbn [walk dirs_from down map] in *;
+    try fold (down r) in *.
   - inversion Hw. now rewrite app_nil_r.
   - destruct (lookup f (cur ++ [c])) as [[|d|t]|] eqn:Hl; try discriminate.
     + destruct (IH (cur ++ [c]) Hw) as [Hd Hx].
@@ -513,9 +524,10 @@ Definition no_links_under (out : path) (f : fs) : Prop :=
 (* below a link-free directory a walk never meets a link *)
 Lemma walk_under out f cur rest :
   no_links_under out f -> prefix out cur ->
-  walk f cur rest = WDone (cur ++ rest) \/ walk f cur rest = WFail.
+  walk f cur (down rest) = WDone (cur ++ rest) \/ walk f cur (down rest) = WFail.
 Proof.
-  intros Hnl. revert cur; induction rest as [|c r IH]; intros cur Hp; cbn [walk].
+  intros Hnl. revert cur; induction rest as [|c r IH]; intros cur Hp; cbn [walk down map];
+    try fold (down r).
   - left. now rewrite app_nil_r.
   - destruct (lookup f (cur ++ [c])) as [[|d|t]|] eqn:Hl.
     + specialize (IH (cur ++ [c]) (prefix_app_r _ _ _ Hp)).
@@ -532,8 +544,8 @@ Proof.
   intros Hr Hnl Hc. unfold canonicalize in Hc.
   pose proof (walk_app_dirs f [] out cs Hr) as Hw. cbn [app] in Hw.
   destruct (walk_under out f out cs Hnl (prefix_refl out)) as [H|H]; rewrite <- Hw in H.
-  - rewrite (resolve_done _ _ _ _ H) in Hc. congruence.
-  - rewrite (resolve_fail _ _ _ H) in Hc. discriminate.
+  - rewrite (resolve_done _ _ _ _ _ H) in Hc. congruence.
+  - rewrite (resolve_fail _ _ _ _ H) in Hc. discriminate.
 Qed.
 
 (** ** create_dir_all *)
@@ -569,7 +581,8 @@ Proof.
   - destruct (lookup f (cur ++ [c])) as [[|d|t]|] eqn:Hl.
     + apply IH.
     + intros H; inversion H; subst. apply mk_rel_refl.
-    + destruct (canonicalize f t) as [q|]; [|intros H; inversion H; subst; apply mk_rel_refl].
+    + destruct (resolve MAXSYMLINKS f (link_base cur t) (snd t)) as [q|];
+        [|intros H; inversion H; subst; apply mk_rel_refl].
       destruct (is_dir f q); [apply IH|intros H; inversion H; subst; apply mk_rel_refl].
     + intros H. apply IH in H. eapply mk_rel_trans; [|exact H]. now apply mk_rel_set.
 Qed.
@@ -677,30 +690,40 @@ Qed.
 
 (** ** File::create *)
 
-Lemma open_create_effect k f p f2 cp :
-  open_create k f p = Some (f2, cp) ->
+Lemma open_create_effect k f cur rest f2 cp :
+  open_create k f cur rest = Some (f2, cp) ->
   (lookup f cp = None \/ exists d, lookup f cp = Some (File d)) /\
   f2 = set f cp (File []) /\
   exists q c, cp = q ++ [c] /\ is_dir f q = true.
 Proof.
-  revert p; induction k as [|k IH]; intros p; cbn [open_create];
-    destruct (split_last p) as [[par c]|]; try discriminate;
-    destruct (canonicalize f par) as [q|]; try discriminate;
+  revert cur rest; induction k as [|k IH]; intros cur rest; cbn [open_create];
+    destruct (split_last rest) as [[par [|c]]|]; try discriminate;
+    destruct (resolve MAXSYMLINKS f cur par) as [q|]; try discriminate;
     destruct (is_dir f q) eqn:Hd; try discriminate;
     destruct (lookup f (q ++ [c])) as [[|d|t]|] eqn:Hl; try discriminate;
     try apply IH;
     intros H; inversion H; subst; (split; [eauto|split; [reflexivity|eauto]]).
 Qed.
 
+Lemma split_last_down p :
+  split_last (down p) =
+  match split_last p with None => None | Some (par, c) => Some (down par, Down c) end.
+Proof.
+  induction p as [|x p IH]; [reflexivity|].
+  cbn [down map split_last]. fold (down p). rewrite IH.
+  destruct (split_last p) as [[par c]|]; reflexivity.
+Qed.
+
 (* one step of File::create, exposed *)
 Lemma open_create_step k f p f2 cp :
-  open_create k f p = Some (f2, cp) ->
+  open_create k f [] (down p) = Some (f2, cp) ->
   exists par c q, p = par ++ [c] /\ canonicalize f par = Some q /\ is_dir f q = true /\
     (cp = q ++ [c] \/ exists t, lookup f (q ++ [c]) = Some (Link t)).
 Proof.
-  destruct k as [|k]; cbn [open_create];
+  destruct k as [|k]; cbn [open_create]; rewrite split_last_down;
     (destruct (split_last p) as [[par c]|] eqn:Hs; [|discriminate]);
     apply split_last_some in Hs;
+    change (resolve MAXSYMLINKS f [] (down par)) with (canonicalize f par);
     (destruct (canonicalize f par) as [q|] eqn:Hc; [|discriminate]);
     (destruct (is_dir f q) eqn:Hd; [|discriminate]);
     intros H; exists par, c, q;
@@ -751,15 +774,15 @@ Qed.
    the file that is created/truncated is either q/c itself, or q/c is a
    symbolic link that already existed in the initial file system f and the
    write went through it. *)
-Theorem confined_by_canonical_check gp out name f f' lit cp :
-  create_file_with gp prefixb out name f = (f', Created lit cp) ->
+Theorem confined_by_canonical_check gp lt out name f f' lit cp :
+  create_file_with gp prefixb lt out name f = (f', Created lit cp) ->
   exists par c q f1,
     gp out name = Some lit /\ lit = par ++ [c] /\
     f1 = fst (prepare_parent f par) /\
     canonicalize f1 par = Some q /\ prefix out q /\ is_dir f1 q = true /\
     (cp = q ++ [c] \/ exists t, lookup f (q ++ [c]) = Some (Link t)) /\
     (lookup f1 cp = None \/ exists d, lookup f1 cp = Some (File d)) /\
-    f' = set f1 cp (File []).
+    f' = set f1 cp (File []) /\ lt f1 lit = false /\ sys_ok lit = true.
 Proof.
   unfold create_file_with.
   destruct (gp out name) as [p|] eqn:Hgp; [|intros H; inversion H].
@@ -770,17 +793,18 @@ Proof.
   destruct b; [|intros H; inversion H].
   destruct (canonicalize f1 par) as [q|] eqn:Hc; [|intros H; inversion H].
   destruct (prefixb out q) eqn:Hpre; [|intros H; inversion H].
+  destruct (lt f1 p) eqn:Hlt; [intros H; inversion H|].
   destruct (sys_file_create f1 p) as [[f2 cp']|] eqn:Hfc; [|intros H; inversion H].
   intros H; inversion H; subst f2 lit cp'. clear H.
-  unfold sys_file_create in Hfc. destruct (sys_ok p); [|discriminate].
+  unfold sys_file_create in Hfc. destruct (sys_ok p) eqn:Hok; [|discriminate].
   unfold file_create in Hfc.
-  destruct (open_create_effect _ _ _ _ _ Hfc) as [Hold [Hset _]].
+  destruct (open_create_effect _ _ _ _ _ _ Hfc) as [Hold [Hset _]].
   destruct (open_create_step _ _ _ _ _ Hfc) as [par' [c' [q' [Hp' [Hc' [Hd' Hcp]]]]]].
   rewrite Hs in Hp'. apply app_inj_tail in Hp'. destruct Hp' as [<- <-].
   rewrite Hc in Hc'. inversion Hc'; subst q'.
   exists par, c, q, f1. rewrite Hpp. cbn [fst].
   repeat (split; [first [reflexivity|assumption|now apply prefixb_prefix]|]).
-  split; [|split; assumption].
+  split; [|split; [assumption|split; [assumption|split; [assumption|reflexivity]]]].
   destruct Hcp as [Hcp|[t Ht]]; [left; exact Hcp|right].
   exists t. now apply (mk_rel_link f f1).
 Qed.
@@ -789,9 +813,9 @@ Print Assumptions confined_by_canonical_check.
 (* The canonical parent is beneath out; so is the file unless the last
    component is a symbolic link.  In particular (no link located beneath out,
    links allowed everywhere else): *)
-Theorem confined_by_canonical_check_file_partial gp out name f f' lit cp :
+Theorem confined_by_canonical_check_file_partial gp lt out name f f' lit cp :
   no_links_under out f ->
-  create_file_with gp prefixb out name f = (f', Created lit cp) ->
+  create_file_with gp prefixb lt out name f = (f', Created lit cp) ->
   prefix out cp.
 Proof.
   intros Hnl H. apply confined_by_canonical_check in H.
@@ -802,21 +826,57 @@ Proof.
 Qed.
 Print Assumptions confined_by_canonical_check_file_partial.
 
-(* FULL STATEMENT (false): "for any file system, if create_file out name
-   creates a file at canonical path cp then out is a prefix of cp".
-   Refuted: File::create follows a symbolic link in the LAST component; only
-   the parent is checked.  Witness = rust/cf.rs scenario 1 (and 6 for a
-   dangling link), reproduced with the real create_file. *)
+(* what symlink_metadata answers for par/c once par is known to resolve to the
+   directory q: the node at q/c itself *)
+Lemma lstat_snoc f par c q :
+  canonicalize f par = Some q -> is_dir f q = true ->
+  lstat f (par ++ [c]) = lookup f (q ++ [c]).
+Proof. intros Hc Hd. unfold lstat. now rewrite split_last_snoc, Hc, Hd. Qed.
+
+(* THE FULL STATEMENT, with the symlink_metadata test of the repaired code
+   (D23): ANY file system (directories, files, symbolic links with absolute or
+   relative targets anywhere, inside and outside out, cycles included), ANY
+   path-computing function (even one that does not filter ".."), ANY member
+   name: the file that create_file creates or truncates is q/c where q is the
+   canonical parent, a directory beneath out.  Hence its physical path is
+   beneath out. *)
+Theorem confined_by_canonical_check_file gp out name f f' lit cp :
+  create_file_with gp prefixb sys_is_symlink out name f = (f', Created lit cp) ->
+  prefix out cp /\
+  exists par c q, lit = par ++ [c] /\ cp = q ++ [c] /\ prefix out q /\
+    canonicalize (fst (prepare_parent f par)) par = Some q.
+Proof.
+  intros H. apply confined_by_canonical_check in H.
+  destruct H as [par [c [q [f1 [_ [Hlit [Hf1 [Hc [Hpre [Hd [Hcp [_ [_ [Hlt Hok]]]]]]]]]]]]]].
+  assert (E : cp = q ++ [c]).
+  { destruct Hcp as [E|[t Ht]]; [exact E|exfalso].
+    unfold sys_is_symlink in Hlt. rewrite Hok in Hlt. cbn [andb] in Hlt.
+    unfold is_symlink in Hlt. rewrite Hlit, (lstat_snoc f1 par c q Hc Hd) in Hlt.
+    assert (Ht1 : lookup f1 (q ++ [c]) = Some (Link t)).
+    { subst f1. apply (mk_rel_link f _ _ t (prepare_parent_rel f par)). exact Ht. }
+    rewrite Ht1 in Hlt. discriminate. }
+  split; [rewrite E; now apply prefix_app_r|].
+  exists par, c, q. subst f1. repeat split; assumption.
+Qed.
+Print Assumptions confined_by_canonical_check_file.
+
+(* D23: the same statement for the code BEFORE the repair (no symlink_metadata
+   test) is false: File::create follows a symbolic link in the LAST component;
+   only the parent was checked.  Witness = rust/cf.rs scenario 1 (and 6 for a
+   dangling link), reproduced with the real create_file of that time; the
+   harness job c16-symlink found it on the real binary (member "flink"). *)
+Definition abs_link (p : path) : node := Link (true, down p).
+
 Definition fs_final_link : fs :=
   [ ([s2b "out"], Dir);
-    ([s2b "out"; s2b "x"], Link [s2b "etc"; s2b "passwd"]);
+    ([s2b "out"; s2b "x"], abs_link [s2b "etc"; s2b "passwd"]);
     ([s2b "etc"], Dir);
     ([s2b "etc"; s2b "passwd"], File (s2b "root")) ].
 
-Theorem confined_by_canonical_check_file_refuted :
+Theorem D23_old_code_refuted :
   exists f out name f' lit cp,
     real_dir f out /\
-    create_file out name f = (f', Created lit cp) /\
+    create_file_old out name f = (f', Created lit cp) /\
     prefixb out cp = false /\
     lookup f cp = Some (File (s2b "root")) /\
     lookup f' cp = Some (File []).
@@ -827,7 +887,12 @@ Proof.
   split; [vm_compute; reflexivity|].
   vm_compute. auto.
 Qed.
-Print Assumptions confined_by_canonical_check_file_refuted.
+Print Assumptions D23_old_code_refuted.
+
+(* ... and the repaired code skips that member *)
+Example D23_new_code_skips :
+  create_file [s2b "out"] (s2b "x") fs_final_link = (fs_final_link, Skipped).
+Proof. vm_compute. reflexivity. Qed.
 
 (* Directories, on the other hand, are created BEFORE the check: with a
    symbolic link to a directory located in out, create_dir_all makes
@@ -835,7 +900,7 @@ Print Assumptions confined_by_canonical_check_file_refuted.
    scenario 2.)  C16 speaks of files only; this is reported as a finding. *)
 Definition fs_dir_link : fs :=
   [ ([s2b "out"], Dir);
-    ([s2b "out"; s2b "l"], Link [s2b "tmp"]);
+    ([s2b "out"; s2b "l"], abs_link [s2b "tmp"]);
     ([s2b "tmp"], Dir) ].
 
 Theorem directories_created_outside :
@@ -857,9 +922,9 @@ Print Assumptions directories_created_outside.
 
 (* the member name normalises to nothing ("", "/", ".", "./"): the extracted
    path is out itself; nothing changes and nothing is created *)
-Lemma create_file_with_out_itself gp chk out name f f' o :
+Lemma create_file_with_out_itself gp chk lt out name f f' o :
   real_dir f out -> gp out name = Some out ->
-  create_file_with gp chk out name f = (f', o) ->
+  create_file_with gp chk lt out name f = (f', o) ->
   f' = f /\ forall lit cp, o <> Created lit cp.
 Proof.
   intros Hr Hgp. unfold create_file_with. rewrite Hgp.
@@ -875,11 +940,12 @@ Proof.
   destruct b; [|intros H; inversion H; subst; split; [reflexivity|discriminate]].
   rewrite (canonicalize_real f par Hrp).
   destruct (chk out par); [|intros H; inversion H; subst; split; [reflexivity|discriminate]].
+  destruct (lt f out); [intros H; inversion H; subst; split; [reflexivity|discriminate]|].
   destruct (sys_file_create f out) as [[f2 cp]|] eqn:Hfc;
     [|intros H; inversion H; subst; split; [reflexivity|discriminate]].
   exfalso. unfold sys_file_create in Hfc. destruct (sys_ok out); [|discriminate].
   unfold file_create in Hfc.
-  destruct (open_create_effect _ _ _ _ _ Hfc) as [Hold _].
+  destruct (open_create_effect _ _ _ _ _ _ Hfc) as [Hold _].
   destruct (open_create_step _ _ _ _ _ Hfc) as [par' [c' [q' [Hp' [Hc' [_ Hcp]]]]]].
   rewrite Hs in Hp'. apply app_inj_tail in Hp'. destruct Hp' as [<- <-].
   rewrite (canonicalize_real f par Hrp) in Hc'. inversion Hc'; subst q'.
@@ -921,9 +987,9 @@ Qed.
    - if a file is created, it is created at canonical path out ++ norm name,
      a proper extension of out by plain components.
    The canonicalize/starts_with check plays no role in this proof. *)
-Theorem confined_by_filter chk out name f f' o :
+Theorem confined_by_filter chk lt out name f f' o :
   real_dir f out -> no_links_under out f ->
-  create_file_with get_extracted_path chk out name f = (f', o) ->
+  create_file_with get_extracted_path chk lt out name f = (f', o) ->
   real_dir f' out /\ no_links_under out f' /\
   (forall p, ~ prefix out p -> lookup f' p = lookup f p) /\
   (forall lit cp, o = Created lit cp ->
@@ -950,7 +1016,7 @@ Proof.
   destruct (get_extracted_path_some _ _ _ Hgp) as [-> _].
   destruct (split_last (norm name)) as [[cs' c]|] eqn:Hsl.
   2:{ apply split_last_none in Hsl. rewrite Hsl, app_nil_r in Hgp.
-      destruct (create_file_with_out_itself _ _ _ _ _ _ _ Hr Hgp Hcf) as [-> Hno].
+      destruct (create_file_with_out_itself _ _ _ _ _ _ _ _ Hr Hgp Hcf) as [-> Hno].
       apply (Hskip f o); auto. }
   apply split_last_some in Hsl.
   unfold create_file_with in Hcf. rewrite Hgp in Hcf.
@@ -968,12 +1034,13 @@ Proof.
   destruct b; [|apply (Hskip Failed); auto; discriminate].
   rewrite (Hcan eq_refl) in Hcf.
   destruct (chk out (out ++ cs')); [|apply (Hskip Skipped); auto; discriminate].
+  destruct (lt f1 ((out ++ cs') ++ [c])); [apply (Hskip Skipped); auto; discriminate|].
   destruct (sys_file_create f1 ((out ++ cs') ++ [c])) as [[f2 cp]|] eqn:Hfc;
     [|apply (Hskip Failed); auto; discriminate].
   inversion Hcf; subst f2 o. clear Hcf Hskip.
   unfold sys_file_create in Hfc. destruct (sys_ok _); [|discriminate].
   unfold file_create in Hfc.
-  destruct (open_create_effect _ _ _ _ _ Hfc) as [Hold [Hset _]].
+  destruct (open_create_effect _ _ _ _ _ _ Hfc) as [Hold [Hset _]].
   destruct (open_create_step _ _ _ _ _ Hfc) as [par' [c' [q' [Hp' [Hc' [_ Hcp]]]]]].
   apply app_inj_tail in Hp'. destruct Hp' as [<- <-].
   rewrite (Hcan eq_refl) in Hc'. inversion Hc'; subst q'.
@@ -1002,7 +1069,7 @@ Corollary confined_by_filter_nocheck out name f f' lit cp :
   exists cs, cp = out ++ cs /\ cs <> [] /\ Forall plain cs.
 Proof.
   intros Hr Hnl H. unfold create_file_nocheck in H.
-  destruct (confined_by_filter _ _ _ _ _ _ Hr Hnl H) as [_ [_ [_ Hc]]].
+  destruct (confined_by_filter _ _ _ _ _ _ _ Hr Hnl H) as [_ [_ [_ Hc]]].
   destruct (Hc lit cp eq_refl) as [-> [-> [Hne _]]].
   exists (norm name). split; [reflexivity|]. split; [exact Hne|apply norm_plain].
 Qed.
@@ -1040,7 +1107,7 @@ Lemma extract_member_confined out m f f' b :
 Proof.
   intros Hr Hnl. unfold extract_member.
   destruct (create_file out (fst m) f) as [f1 o] eqn:Hcf.
-  destruct (confined_by_filter prefixb _ _ _ _ _ Hr Hnl Hcf) as [Hr1 [Hnl1 [Hout1 Hc]]].
+  destruct (confined_by_filter prefixb sys_is_symlink _ _ _ _ _ Hr Hnl Hcf) as [Hr1 [Hnl1 [Hout1 Hc]]].
   assert (H1 : confined out f f1) by (split; [exact Hr1|split; assumption]).
   destruct o as [lit cp| |]; try (intros H; inversion H; subst; exact H1).
   destruct (Hc lit cp eq_refl) as [_ [_ [_ [Hpre Hl]]]].
@@ -1076,7 +1143,7 @@ Proof.
   induction names as [|n names IH]; intros f f' ex b Hr Hnl; cbn [create_all].
   - intros H; inversion H; subst. split; [now apply confined_refl|constructor].
   - destruct (create_file out n f) as [f1 o] eqn:Hcf.
-    destruct (confined_by_filter prefixb _ _ _ _ _ Hr Hnl Hcf) as [Hr1 [Hnl1 [Hout1 Hc]]].
+    destruct (confined_by_filter prefixb sys_is_symlink _ _ _ _ _ Hr Hnl Hcf) as [Hr1 [Hnl1 [Hout1 Hc]]].
     assert (H1 : confined out f f1) by (split; [exact Hr1|split; assumption]).
     destruct o as [lit cp| |].
     + destruct (create_all out names f1) as [[f2 ex2] ok] eqn:Hca.
@@ -1149,16 +1216,17 @@ Qed.
 
 Lemma open_create_fresh k f par c q :
   canonicalize f par = Some q -> is_dir f q = true -> lookup f (q ++ [c]) = None ->
-  open_create k f (par ++ [c]) = Some (set f (q ++ [c]) (File []), q ++ [c]).
+  open_create k f [] (down (par ++ [c])) = Some (set f (q ++ [c]) (File []), q ++ [c]).
 Proof.
-  intros Hc Hd Hl. destruct k; cbn [open_create]; now rewrite split_last_snoc, Hc, Hd, Hl.
+  intros Hc Hd Hl. unfold canonicalize in Hc.
+  destruct k; cbn [open_create]; now rewrite split_last_down, split_last_snoc, Hc, Hd, Hl.
 Qed.
 
 Lemma walk_file f cur rest c d :
   dirs_from f cur rest -> lookup f ((cur ++ rest) ++ [c]) = Some (File d) ->
-  walk f cur (rest ++ [c]) = WDone ((cur ++ rest) ++ [c]).
+  walk f cur (down (rest ++ [c])) = WDone ((cur ++ rest) ++ [c]).
 Proof.
-  intros Hd Hl. rewrite walk_app_dirs by exact Hd. cbn [walk]. now rewrite Hl.
+  intros Hd Hl. rewrite walk_app_dirs by exact Hd. cbn [walk down map]. now rewrite Hl.
 Qed.
 
 Lemma read_file_reachable f par c d :
@@ -1239,7 +1307,7 @@ Proof.
     destruct (walk_under out f out q' Hnl (prefix_refl out)) as [H|H].
     + apply (walk_done_dirs f out q' (out ++ q') H).
       intros r d Hne Hp Hl. destruct (Hclear r Hne Hp); congruence.
-    + rewrite <- Hw in H. rewrite (resolve_fail _ _ _ H) in Hc. discriminate.
+    + rewrite <- Hw in H. rewrite (resolve_fail _ _ _ _ H) in Hc. discriminate.
   - unfold create_dir_all. rewrite (mkdir_all_app_dirs f [] out q' Hr). cbn [app].
     destruct (mkdir_all_ok f out q' Hclear) as [f1 Hmk].
     exists f1. split; [exact Hmk|].
@@ -1305,6 +1373,11 @@ Proof.
     rewrite (canonicalize_real f1 _ Hr1).
     replace (prefixb out (out ++ q')) with true
       by (symmetry; apply prefixb_prefix; apply prefix_app).
+    replace (sys_is_symlink f1 ((out ++ q') ++ [c])) with false.
+    2:{ unfold sys_is_symlink, is_symlink.
+        rewrite (lstat_snoc f1 (out ++ q') c (out ++ q')
+                   (canonicalize_real f1 _ Hr1) (real_dir_is_dir f1 _ Hr1)).
+        fold lit. rewrite Hlit1. now rewrite andb_false_r. }
     unfold sys_file_create. fold lit. rewrite Hliteq, Hok, <- Hliteq.
     unfold file_create, lit.
     rewrite (open_create_fresh _ f1 (out ++ q') c (out ++ q')
@@ -1743,17 +1816,18 @@ Definition fs_scn : fs :=
     ([s2b "outside"], Dir);
     ([s2b "out"; s2b "real"], Dir);
     ([s2b "outside"; s2b "secret"], File (s2b "root"));
-    ([s2b "out"; s2b "x"], Link [s2b "outside"; s2b "secret"]);
-    ([s2b "out"; s2b "l"], Link [s2b "outside"]);
-    ([s2b "out"; s2b "d"], Link [s2b "outside"; s2b "nonexistent"]);
-    ([s2b "out"; s2b "in"], Link [s2b "out"; s2b "real"]) ].
+    ([s2b "out"; s2b "x"], abs_link [s2b "outside"; s2b "secret"]);
+    ([s2b "out"; s2b "l"], abs_link [s2b "outside"]);
+    ([s2b "out"; s2b "d"], abs_link [s2b "outside"; s2b "nonexistent"]);
+    ([s2b "out"; s2b "in"], abs_link [s2b "out"; s2b "real"]) ].
 
-Fixpoint run_create (out : path) (names : list bytes) (f : fs) : list outcome * fs :=
+Fixpoint run_create (cf : path -> bytes -> fs -> fs * outcome)
+    (out : path) (names : list bytes) (f : fs) : list outcome * fs :=
   match names with
   | [] => ([], f)
   | n :: names' =>
-      let '(f1, o) := create_file out n f in
-      let '(os, f2) := run_create out names' f1 in
+      let '(f1, o) := cf out n f in
+      let '(os, f2) := run_create cf out names' f1 in
       (o :: os, f2)
   end.
 
@@ -1762,8 +1836,9 @@ Definition scn_names : list bytes :=
     s2b "p/q"; s2b "p"; s2b "d"; s2b "in/f"; s2b "n" ++ [0] ++ s2b "ul";
     repeat 65 256; repeat 65 256 ++ s2b "/f"; s2b "a/../../x"; s2b "/a"; s2b "a/b/c" ].
 
+(* cf.rs was run on the code as it was BEFORE the repair of D23 *)
 Example model_agrees_with_cf_rs :
-  let r := run_create o_ scn_names fs_scn in
+  let r := run_create create_file_old o_ scn_names fs_scn in
   fst r =
     [ Created [s2b "out"; s2b "x"] [s2b "outside"; s2b "secret"];   (* 1  Created out/x, outside/secret truncated *)
       Skipped;                                                      (* 2  Skipped, outside/x created *)
@@ -1786,6 +1861,32 @@ Example model_agrees_with_cf_rs :
   /\ lookup (snd r) [s2b "out"; s2b "real"; s2b "f"] = Some (File []).
 Proof. vm_compute. repeat split. Qed.
 
+(* the repaired code on the same scenario: 1 and 6 (a symbolic link as last
+   component, live or dangling) are skipped and nothing outside is touched
+   except the directory of scenario 2; everything else as before.  (The real
+   repaired binary is compared with the model by the harness job c16-symlink.) *)
+Example repaired_code_on_cf_rs_scenario :
+  let r := run_create create_file o_ scn_names fs_scn in
+  fst r =
+    [ Skipped;
+      Skipped;
+      Created [s2b "out"; s2b "a"] [s2b "out"; s2b "a"];
+      Failed;
+      Skipped; Skipped; Skipped; Skipped; Skipped;
+      Created [s2b "out"; s2b "p"; s2b "q"] [s2b "out"; s2b "p"; s2b "q"];
+      Failed;
+      Skipped;
+      Created [s2b "out"; s2b "in"; s2b "f"] [s2b "out"; s2b "real"; s2b "f"];
+      Failed; Failed; Failed;
+      Skipped;
+      Created [s2b "out"; s2b "a"] [s2b "out"; s2b "a"];
+      Failed ]
+  /\ lookup (snd r) [s2b "outside"; s2b "secret"] = Some (File (s2b "root"))
+  /\ lookup (snd r) [s2b "outside"; s2b "x"] = Some Dir
+  /\ lookup (snd r) [s2b "outside"; s2b "nonexistent"] = None
+  /\ lookup (snd r) [s2b "out"; s2b "real"; s2b "f"] = Some (File []).
+Proof. vm_compute. repeat split. Qed.
+
 (* 11: output_dir "/" and a name that normalises to nothing: no parent, Skipped *)
 Example model_agrees_with_cf_rs_root : create_file [] (s2b "") [] = ([], Skipped).
 Proof. vm_compute. reflexivity. Qed.
@@ -1795,8 +1896,8 @@ Proof. vm_compute. reflexivity. Qed.
 
 (* (e) instantiated at a get_extracted_path that does NOT filter "..": the
    canonicalize check alone still confines the parent *)
-Corollary confined_by_canonical_check_nofilter out name f f' lit cp :
-  create_file_with get_path_nofilter prefixb out name f = (f', Created lit cp) ->
+Corollary confined_by_canonical_check_nofilter lt out name f f' lit cp :
+  create_file_with get_path_nofilter prefixb lt out name f = (f', Created lit cp) ->
   exists par c q, lit = par ++ [c] /\
     canonicalize (fst (prepare_parent f par)) par = Some q /\ prefix out q.
 Proof.
@@ -1807,11 +1908,11 @@ Qed.
 
 (* without the filter, the check catches "../x" ... *)
 Example nofilter_check_skips :
-  snd (create_file_with get_path_nofilter prefixb o_ (s2b "../x") fs_empty_out) = Skipped.
+  snd (create_file_with get_path_nofilter prefixb sys_is_symlink o_ (s2b "../x") fs_empty_out) = Skipped.
 Proof. vm_compute. reflexivity. Qed.
 
 (* ... and with neither filter nor check the file is created outside *)
 Example nofilter_nocheck_escapes :
-  snd (create_file_with get_path_nofilter (fun _ _ => true) o_ (s2b "../x") fs_empty_out)
+  snd (create_file_with get_path_nofilter (fun _ _ => true) sys_is_symlink o_ (s2b "../x") fs_empty_out)
   = Created [s2b "x"] [s2b "x"].
 Proof. vm_compute. reflexivity. Qed.
